@@ -3,7 +3,7 @@ import ast
 import re
 
 from sa.program import src, own_nodes, call_name, parent, kwarg, AnchorMissing, enclosing_function
-from sa import guards, exprmodel
+from sa import guards, exprmodel, resolve
 
 EXPLANATION = (
     "Static rules over assemble.py, the generic assembly infrastructure (genericasm.pxi lowered through assemble_tools_cy.pyx), the "
@@ -611,7 +611,60 @@ def r08_9(ctx):
             ctx.undecided('R08.9', f.qual, src(c), c, 'forwarding is conditional or filtered')
 
 
+def r08_10(ctx):
+    """The generated __init__ and update() store the grid values of an input field into the SAME slice fields[..., ofs:ofs+sz]:
+    wherever the store statement is emitted (directly or through a helper of the generator), the end index handed to the
+    template is the offset plus the size.  Passing the size alone gives ofs:sz -- an empty slice for every field that is not
+    the first one, and numpy assigns into an empty slice without complaint: update() silently keeps the old field."""
+    cls = ctx.prog.cls(CG + '.AsmGenerator')
+    n = 0
+
+    def is_sum_with(e, base):
+        return isinstance(e, ast.BinOp) and isinstance(e.op, ast.Add) and (src(e.left) == src(base) or src(e.right) == src(base))
+
+    for m in cls.methods.values():
+        for c in ast.walk(m.node):
+            if not (isinstance(c, ast.Call) and c.args and isinstance(c.args[0], ast.Constant) and isinstance(c.args[0].value, str)
+                    and '{ofs}:{end}]' in c.args[0].value.replace(' ', '')):
+                continue
+            ofs_e, end_e = kwarg(c, 'ofs', 99), kwarg(c, 'end', 99)
+            if ofs_e is None or end_e is None:
+                ctx.undecided('R08.10', m.qual, src(c)[:90], c, 'template arguments not recognised')
+                continue
+            params = [a.arg for a in m.node.args.args]
+            if isinstance(end_e, ast.Name) and end_e.id in params and isinstance(ofs_e, ast.Name) and ofs_e.id in params:
+                # the template lives in a helper: the obligation moves to its call sites
+                i_ofs, i_end = params.index(ofs_e.id) - 1, params.index(end_e.id) - 1      # without self
+                for m2 in cls.methods.values():
+                    for c2 in ast.walk(m2.node):
+                        if isinstance(c2, ast.Call) and isinstance(c2.func, ast.Attribute) and c2.func.attr == m.node.name \
+                                and isinstance(c2.func.value, ast.Name) and c2.func.value.id == 'self':
+                            def arg(i, name):
+                                if i < len(c2.args):
+                                    return c2.args[i]
+                                return kwarg(c2, name, 99)
+                            a_ofs, a_end = arg(i_ofs, ofs_e.id), arg(i_end, end_e.id)
+                            n += 1
+                            if a_ofs is None or a_end is None:
+                                ctx.undecided('R08.10', m2.qual, src(c2)[:90], c2, 'arguments not recognised')
+                                continue
+                            ok = is_sum_with(resolve.expand(a_end, c2), a_ofs)
+                            ctx.decide('R08.10', m2.qual, src(c2)[:90], True if ok else False, c2,
+                                       'slice ofs : ofs + size' if ok else
+                                       'the helper `%s` expects the END index of the slice; this call passes `%s` for the offset `%s` -- the store '
+                                       'goes to fields[..., %s:%s], an empty slice for every field after the first, and update() silently keeps '
+                                       'the old field values' % (m.node.name, src(a_end), src(a_ofs), src(a_ofs), src(a_end)), definite=True)
+            else:
+                n += 1
+                ok = is_sum_with(resolve.expand(end_e, c), ofs_e)
+                ctx.decide('R08.10', m.qual, src(c)[:90], True if ok else (False if isinstance(end_e, ast.Name) else None), c,
+                           'slice ofs : ofs + size' if ok else 'the end index of the field slice is `%s`, not the offset `%s` plus the size'
+                           % (src(end_e), src(ofs_e)), definite=True)
+    ctx.floor('R08.10', 'field stores emitted by the generator', n, 2)
+
+
 def run(ctx):
+    r08_10(ctx)
     r08_9(ctx)
     r08_8(ctx)
     r08_7(ctx)
